@@ -25,6 +25,10 @@ func runC05(c *Check, tier string) {
 	ruleR14d(c, "R05f")
 	// a tainted target whose forced execution failed stays tainted (it is attempted again next time)
 	ruleR13b(c, analyseGate(c, "R05g"), "R05g")
+	// a target that failed (also by timeout) is recorded as failed: the routine reports every outcome but cancellation
+	if w := findWalker(c, "R05h"); w != nil {
+		shareRule(c, "R05h", "after the callback returned the node routine reports a completion on every path unless the error is context.Canceled (same obligation as R04c)", 1, "R04c", func(sub *Check) { ruleR04c(sub, w) }, func(k string) bool { return strings.Contains(k, "completion-on-every-exit") })
+	}
 }
 
 // R05a: result written only on success
